@@ -26,12 +26,21 @@ def analyse_parser(world, rep, adt, flags_doc, tag, wildcard_is_error):
     eng = world.run("fn:" + path)
     g = graph_of(eng)
     fid = eng.entry_frame
-    heads = [k for k in eng.loop_invariants if k[0] == fid]
+    # the argument loop: the innermost loop around the flag comparisons (in Config::new itself or in a helper it calls)
+    from .workers import Region
+    R = Region(world, eng, "fn:" + path)
+    heads = []
+    for edge, conds in eng.edge_conds.items():
+        if any(c[0] == "bool" and c[1][0] == "opaque" and isinstance(c[1][1], tuple) and c[1][1][0] == "streq" for c in conds):
+            lc = R.loops_containing(edge[0])
+            if lc and lc[0] not in heads:
+                heads.append(lc[0])
     if not a.need(len(heads), 1, "argument loop"):
         return eng
     head = heads[0]
+    eng.arg_loop = head
+    eng.arg_loop_nodes = R.loop_nodes(*head)
     body = eng.frame_bodies[fid]
-    L = body.loops[head[1]]
     fields = [f["name"] for f in prog.adts[adt]["variants"][0]["fields"]]
     # configuration local: the struct-typed local of the entry frame of type adt
     cfg_roots = set()
@@ -235,7 +244,7 @@ def check(world, tier):
     if es is not None:
         g = graph_of(es)
         fid = es.entry_frame
-        heads = [k for k in es.loop_invariants if k[0] == fid]
+        heads = [es.arg_loop] if getattr(es, "arg_loop", None) is not None else []
         fields = [f["name"] for f in prog.adts[CONFIG]["variants"][0]["fields"]]
         body = es.frame_bodies[fid]
         cf = [e for e in es.events if base_name(e) == "<std::path::PathBuf as std::clone::Clone>::clone_from"]
@@ -248,7 +257,7 @@ def check(world, tier):
             d.ob(fdst in ("receive_directory", "send_directory") and fsrc == "directory", "fallback-assignment %s" % fdst,
                  "fallback assigns %s := %s" % (fdst, fsrc), e.loc, sample={"fallback": "%s := directory" % fdst})
             if heads:
-                d.ob(e.bb not in body.loops[heads[0][1]], "fallback-inside-loop %s" % fdst, "the fallback is applied inside the argument loop (it would depend on flag order)", e.loc)
+                d.ob(e.node not in es.arg_loop_nodes, "fallback-inside-loop %s" % fdst, "the fallback is applied inside the argument loop (it would depend on flag order)", e.loc)
             # dominated by is_empty(<same field>) == true
             doms = []
             for t in empt:
@@ -262,4 +271,8 @@ def check(world, tier):
                       (isinstance(x.args[0], tuple) and x.args[0][0] == "r" and x.args[0][2][:1] == (fields.index(fdst),)) for x in doms) if fdst else False
             d.ob(okd, "fallback-unconditional %s" % fdst, "%s falls back to the directory setting even when it was given explicitly" % fdst, e.loc,
                  sample={"fallback only if": "%s is empty" % fdst})
+    # "duplicate-packets >= 255 is an error": the range of the parsed value at every Ok return (shared with C16.c)
+    from . import C16
+    bb_ = rep.clause("C17.e", "--duplicate-packets accepts exactly 0..=254")
+    import_clause(world, tier, bb_, C16, "C16.c", ("config-accepts-255",), "duplicate-packets range")
     return rep
